@@ -8,7 +8,7 @@ code are diffed against the JUnit file (strict XML parser), the RunFinished stat
 line on stderr and the process exit status. Oracle: the property's clauses evaluated in plain Python
 on what the implementation produced, using the configuration (not the event flags) for the
 stored-output clause and the scenario for the selected set."""
-import copy, json, os, re, shutil, stat, threading
+import copy, json, os, re, shutil, signal, stat, threading, time
 import xml.etree.ElementTree as ET
 from concurrent.futures import ThreadPoolExecutor
 import vlib, e2e
@@ -219,7 +219,10 @@ def finish_scenario(sc):
             cmd = {"pass": ["/bin/sh", "-c", f"echo C17-MARK {s['id']} attempt=1; exit 0"],
                    "fail": ["/bin/sh", "-c", f"echo C17-MARK {s['id']} attempt=1; echo oops >&2; exit 3"],
                    "execfail": ["/nonexistent/c17-setup-script"],
-                   "timeout": ["/bin/sh", "-c", "sleep 30"]}[s["kind"]]
+                   "timeout": ["/bin/sh", "-c", "sleep 30"],
+                   # shuts down gracefully (status 0) when the run is cancelled by a signal
+                   "graceful": ["/bin/sh", "-c", f"trap 'exit 0' TERM INT; echo C17-MARK {s['id']} attempt=1; "
+                                                 "sleep 3 & wait"]}[s["kind"]]
             lines += [f"[script.{s['id']}]", "command = [" + ", ".join(toml_str(c) for c in cmd) + "]",
                       'slow-timeout = { period = "300ms", terminate-after = 2, grace-period = "100ms" }',
                       f"capture-stdout = {coq_bool(s['capture'])}", f"capture-stderr = {coq_bool(s['capture'])}"]
@@ -283,6 +286,19 @@ def fixed_scenarios():
                       "selected": True, "plan": [kind]})
     out.append(dict(idx=4, family="fixed", retries=0, ss=True, sf=True, fail_fast=True, tests=tests,
                     bin_tests=bt, overrides=[], scripts=[], threads=1))
+    # a shutdown signal while the (only) setup script runs; the script exits 0: the run is cancelled
+    # before any test finished -- "0/3 tests run" in the summary, exit status 100, no testcase but the script's
+    bt = {"alpha::t1": {}}
+    tests = []
+    for i in range(3):
+        name = f"g{i}"
+        bt["alpha::t1"][name] = {"attempts": [mk_attempt(name, 1, "pass", r)]}
+        tests.append({"bin": "alpha::t1", "name": name, "kind": "pass", "ss": True, "sf": True,
+                      "selected": True, "plan": ["pass"]})
+    out.append(dict(idx=5, family="fixed", retries=0, ss=True, sf=True, fail_fast=False, tests=tests,
+                    bin_tests=bt, overrides=[],
+                    scripts=[{"id": "grace_5", "kind": "graceful", "ss": True, "sf": True, "capture": True}],
+                    threads=2, signal_on=("SetupScriptStarted", 0.4, int(signal.SIGTERM))))
     return [finish_scenario(s) for s in out]
 
 
@@ -339,6 +355,15 @@ def run_one(rig, sc, timeout=90):
                 done[0] = True
             return done[0]
         signals = [(trigger, 0)]
+    if sc.get("signal_on"):
+        kind, delay, signo = sc["signal_on"]
+        seen = [None]
+
+        def sig_trigger(ctx):
+            if seen[0] is None and e2e.tap_has(kind)(ctx):
+                seen[0] = time.monotonic()
+            return seen[0] is not None and time.monotonic() >= seen[0] + delay
+        signals = [(sig_trigger, signo)]
     if not sc.get("double_spawn", True):
         # without the launcher an unspawnable test / script is an execution failure (with it: exit 70, FAIL)
         env_extra["NEXTEST_DOUBLE_SPAWN"] = "0"
@@ -644,6 +669,10 @@ def oracle(sc, o, rep, xml_err):
     if (o["rc"] == 0) != all_ok:
         bad.append(f"exit status {o['rc']} but failed tests={failed_tests}, failed scripts={failed_scripts}, "
                    f"finished {len(fins)} of {len(selected)} selected")
+    if failed_scripts == 0 and len(sfins) == len(sc["scripts"]) and 0 < len(selected) and len(fins) < len(selected) \
+            and o["rc"] != 100:
+        bad.append(f"the summary counts {len(fins)} of {len(selected)} selected tests as run (a cancelled run), no "
+                   f"setup script failed, but the exit status is {o['rc']}, not 100")
     # --- the JUnit file
     if o["junit"] is None:
         bad.append("no JUnit file was written")
